@@ -8,6 +8,31 @@ ROOT = os.path.dirname(os.path.dirname(os.path.abspath(__file__)))
 
 # id -> (design_ref, text, note, technique)
 CLAIMED = {
+    "C05": ("5/C05",
+            "KVStoreConc.tla extends the sequential KVStore spec with Invoke / silent Lin / Return per call (a committed batch = one Lin per "
+            "write, Iterate reads the whole map in its Lin); TLC checks the closed composition (2-3 threads) and a per-entry-iteration "
+            "negative control; concurrent histories of the real store (2-16 goroutines, all views, flushkv, occasional Close; built with the "
+            "race detector, 20 s watchdog) and forced schedules (Iterate consumers as gates; a gated Flush between flushkv and mapdb) are "
+            "recorded and TLC searches a placement of the linearization points for each; a race report or a hang is a violation.",
+            "No schedules forced inside mapdb's critical sections; 8-16 goroutine runs use few writers (TLC search cost); one known finding "
+            "(flushkv mutation visible but ErrStoreClosed when Close falls between the inner call and the trailing Flush).",
+            "TLA+ linearizability spec with silent steps (TLC DFS trace validation), forced Iterate schedules, Go race detector"),
+    "C15": ("5/C15",
+            "TLA+ modules Events, Promise, Notifier at quiescent points (hook/promise callbacks as gates; Hook/Unhook from inside a running "
+            "callback and during an in-flight Trigger, LinkTo re-linking, max trigger counts, listener re-creation after Notify, Wait on "
+            "harness threads) replayed as complete LTS on the real objects; EventsImpl models the trigger counter and the unhook flag for all "
+            "interleavings with 2 negative controls; free-running races (concurrent triggerers with max counts, Deregister vs Wait, "
+            "registration vs Trigger) validated by TLC against Races.tla.",
+            "Event1[int] only for runtime/event (other arities share the template); preTrigger functions and LinkTo from inside callbacks not exercised.",
+            "TLA+ quiescent-point specs (TLC exhaustive, LTS replay with callback gates), impl-level model, TLC trace validation"),
+    "C18": ("5/C18",
+            "Timed.tla is the API-level meaning with an abstract clock (never early, at most once, cancel honoured, eventual delivery, "
+            "shutdown flags, size bound); TimedImpl / TaskExecImpl model Poll's pop-then-select window, Add's shutdown check and the "
+            "TaskExecutor wrapper for all interleavings with 12 negative controls; TimedQueue / TaskExec quiescent-point LTS are replayed on "
+            "the real queue / task executor (callbacks and two yield points as gates); real-time traces (40 ms unit, monotonic stamps, "
+            "forced schedules + free runs) are validated by TLC with now' = ts.",
+            "Real-time runs whose own margins were missed are discarded and retried (never alarms); size bound > 0 not in the LTS replay.",
+            "TLA+ timed spec (TLC exhaustive + impl-level models), LTS replay with gates, TLC validation of timestamped traces"),
     "C01": ("5/C01",
             "TLA+ modules define the codecs declaratively and independently of the Go code: Wire (binary serix: Enc/Dec over schemas and "
             "value trees, numbers as limbs), WireJson (JSON/map form), Stream (Write*/Read* pairs over a reader that splits its reads "
